@@ -2,7 +2,7 @@
    and N64 (bit patterns), at buffer level over the lanes of an n-D view. *)
 From Coq Require Import List Arith ZArith Lia Bool.
 Import ListNotations.
-From NS Require Import Base.Res Base.SortDedup Mem.Buffer Sort.Partition Sort.Bulk Sort.SelectMany
+From NS Require Import Base.Res Base.SortDedup Mem.Buffer Mem.RemoveNan Sort.Partition Sort.Bulk Sort.SelectMany
   Num.F64 Quantile.Index Quantile.Interp Quantile.Lane Run.RunBase.
 Local Open Scope Z_scope.
 
@@ -82,3 +82,67 @@ Definition m_index (q : Z) (n : Z) : list Z :=
    bits_of_f64 (qfrac qf (zn n))].
 
 Definition chkq (model observed : list Z) : bool := zlist_eqb model observed.
+
+(* ---- quantile_axis_skipnan_mut: per lane, strip the missing values (Mem/RemoveNan.v), then the
+   single-q lane kernel on the returned prefix; an all-missing lane yields the missing value ---- *)
+Section SK.
+Context {A : Type}.
+Variable C : carrier A.
+Variable is_nan : A -> bool.
+Variable nan_val : A.
+
+Fixpoint qsk_lanes (s : strategy) (pick : nat -> nat -> nat) (c : nat) (q : F64)
+    (buf : list A) (lanes : list (list nat)) : res (list A * list A * nat) :=
+  match lanes with
+  | [] => Ok ([], buf, c)
+  | cs :: t =>
+    r <- lift_op (Mem.RemoveNan.remove_nan A is_nan) buf cs ;;
+    let '(i, buf1) := r in
+    if Nat.eqb i 0 then
+      (r2 <- qsk_lanes s pick c q buf1 t ;; let '(vs, b2, c2) := r2 in Ok (nan_val :: vs, b2, c2))
+    else
+      let cs' := firstn i cs in
+      lane <- vread buf1 cs' ;;
+      match searched s [q] i with
+      | Ok ds =>
+        r1 <- quantiles_lane C s (S i) pick c [q] ds lane ;;
+        let '(vals, lane', c') := r1 in
+        r2 <- qsk_lanes s pick c' q (vwrite buf1 cs' lane') t ;;
+        let '(vs, b2, c2) := r2 in Ok (hd nan_val vals :: vs, b2, c2)
+      | _ => Panic
+      end
+  end.
+
+Definition qskipnan (s : strategy) (pick : nat -> nat -> nat) (q : F64) (axis_len : nat)
+    (buf : list A) (lanes : list (list nat)) : qout (list A * list A * nat) :=
+  if negb (valid_q q) then Q_Err (QE_Invalid q)
+  else if Nat.eqb axis_len 0 then Q_Err QE_Empty
+  else match qsk_lanes s pick 0 q buf lanes with
+       | Ok r => Q_Ok r
+       | _ => Q_Panic
+       end.
+End SK.
+
+Definition enc_qsk {A} (enc : A -> Z) (r : qout (list A * list A * nat)) : list Z :=
+  match r with
+  | Q_Ok (vs, buf, c) => [0; nz c] ++ map enc vs ++ map enc buf
+  | Q_Err QE_Empty => [1]
+  | Q_Err (QE_Invalid q) => [2; bits_of_f64 q]
+  | Q_Panic => [3]
+  end.
+
+Definition qsk_nank : Z := -777777777.
+
+(* Option<int>: None is the key qsk_nank *)
+Definition m_qskipnan_int (sg : bool) (bw : Z) (strat : Z) (q : Z) (axis_len : Z)
+    (buf : list Z) (lanes : list (list nat)) (pm : pmode) : list Z :=
+  enc_qsk (fun x => x)
+    (qskipnan (int_carrier {| signed := sg; bits := bw |}) (Z.eqb qsk_nank) qsk_nank (strat_of strat) (mk_pick pm)
+       (f64_of_bits q) (zn axis_len) buf lanes).
+
+(* f64: NaN by its bit pattern *)
+Definition m_qskipnan_f64 (strat : Z) (q : Z) (axis_len : Z)
+    (buf : list Z) (lanes : list (list nat)) (pm : pmode) : list Z :=
+  enc_qsk bits_of_f64
+    (qskipnan n64_carrier fis_nan (f64_of_bits nan_bits) (strat_of strat) (mk_pick pm)
+       (f64_of_bits q) (zn axis_len) (map f64_of_bits buf) lanes).
